@@ -55,6 +55,13 @@ func lambdaSpecials() []*big.Int {
 		oracle.Beta,
 	}
 
+	// scale factors whose stored form is a hard input of a divstep inversion (Z is inverted when an element is serialised)
+	for i, h := range HardInversion(p) {
+		if i < 4 {
+			out = append(out, oracle.FromMont(oracle.Limbs(h), p))
+		}
+	}
+
 	// stored form adjacent to the Montgomery form of 1 (R mod p = {0x1000003d1,0,0,0}): equal to it in three limbs. This
 	// is what an "is z == 1" fast path that drops or duplicates a limb confuses with 1.
 	oneM := oracle.ToMont(big.NewInt(1), p)
